@@ -120,6 +120,14 @@ CHECKS = {
             'image files (ssd, dsd, two-sided ssd, hfe, mfm, mmb).',
             'Dummy drives stand for surfaces in the in-process executor; TLC bound 4/5 images.',
             'explicit-state model checking of the real transition function + TLC model with full conformance replay'),
+    'C17': ('exploration', '4 C17',
+            'Regions (every Opus volume A-H of discs with 2..8 volumes of 1..3 tracks, both sides of interleaved and '
+            'non-interleaved two-sided images, MMB slots with occupied neighbours) are filled with a byte naming the region; '
+            'one catalogue entry ends at B-2..B+2 by every start/length split with length mod 256 in {0,1,255}; type, dump, '
+            'extract-files, extract-unused and sector-map must never output another region\'s byte and a crossing extent must '
+            'be reported.',
+            'Only the boundary window is enumerated (the interior is C01/C04).',
+            'bounded-exhaustive boundary enumeration with region-tagged image content'),
 }
 
 NA_REASON = 'check not built yet (work in progress; see DESIGN.md section 4)'
